@@ -49,6 +49,7 @@ func pidOf(v interface{}) int {
 type encState struct {
 	hbuf bytes.Buffer
 	henc *hpack.Encoder
+	sent int // messages encoded for this half so far
 }
 
 func newEncState() *encState {
@@ -144,6 +145,18 @@ func encode(proto string, isReq bool, pid int, key int, st *encState) []byte {
 		return append(be32(len(body)), body...)
 	}
 	switch proto {
+	case "httpup":
+		// HTTP/1.1 whose first request of a connection asks for an upgrade to h2c and whose server declines (answers
+		// 200 in HTTP/1.1 and goes on in HTTP/1.1): what the client half does next must not depend on whether the
+		// answer has been seen already
+		st.sent++
+		if isReq {
+			if st.sent == 1 {
+				return []byte(fmt.Sprintf("GET /%s HTTP/1.1\r\nHost: example.com\r\nConnection: Upgrade, HTTP2-Settings\r\nUpgrade: h2c\r\nHTTP2-Settings: AAMAAABkAAQAAP__\r\n\r\n", mark))
+			}
+			return []byte(fmt.Sprintf("GET /%s HTTP/1.1\r\nHost: example.com\r\n\r\n", mark))
+		}
+		return []byte(fmt.Sprintf("HTTP/1.1 200 OK\r\nContent-Length: 0\r\nX-Id: %s\r\n\r\n", mark))
 	case "redis":
 		if isReq {
 			return []byte(fmt.Sprintf("*2\r\n$3\r\nGET\r\n$%d\r\n%s\r\n", len(mark), mark))
@@ -206,7 +219,7 @@ type connState struct {
 func newWorld(proto string, conns []int) *world {
 	extensions.LoadExtensions()
 	extName := proto
-	if proto == "http2" {
+	if proto == "http2" || proto == "httpup" {
 		extName = "http"
 	}
 	ext := extensions.ExtensionsMap[extName]
